@@ -64,6 +64,7 @@ class Model:
         self.defs = {}                        # macro name -> definition
         self.base = base
         self.case = case
+        self.flds = {'base': base, 'case': case}     # #LET may change these fields; {mode[...]} keeps the originals
         self.pc = pc
         self.touched = set()
 
@@ -133,7 +134,9 @@ class Model:
             bt, bv = self.E(t[3])
             return '#IF(%s)(%s,%s)' % (ct, at, bt), av if cv else bv
         if k == 'fld':
-            return ('{%s}' % t[1]) if not t[2:] or not t[2] else ('{mode[%s]}' % t[1]), {'base': self.base, 'case': self.case}[t[1]]
+            if t[2:] and t[2]:
+                return '{mode[%s]}' % t[1], {'base': self.base, 'case': self.case}[t[1]]
+            return '{%s}' % t[1], self.flds[t[1]]
         if k == 'vars':
             return '{vars[%s]}' % t[1], 0
         raise ValueError(t)
@@ -363,7 +366,7 @@ class Model:
             return '#CHR(%d%s)' % (n, (',%d' % flags) if flags else ''), chr(m)
         if k == 'space':
             if t[1] is None:
-                return ('#SPACE()' if t[2] else '#SPACE'), ' '
+                return '#SPACE()', ' '       # the bare form would swallow a digit that happens to follow it
             et, ev = self.E(t[1])
             if not 0 <= ev <= 40:
                 raise Unsupported('space count')
@@ -493,7 +496,12 @@ class Model:
         k = t[0]
         if k == 'let':
             et, ev = self.E(t[2])
-            self.vars[t[1]] = ev
+            if t[1] in ('base', 'case'):
+                self.flds[t[1]] = ev          # changes the replacement field only; the writer's mode is unchanged
+            elif t[1] in ('html', 'asm', 'fix'):
+                pass                          # mode-dependent fields are never read by generated terms
+            else:
+                self.vars[t[1]] = ev
             return '#LET(%s=%s)' % (t[1], et), ''
         if k == 'lets':
             st, so = self.S(t[2])
@@ -520,6 +528,8 @@ class Model:
             if d is None or d[0] != isstr:
                 raise Unsupported('no such dict')
             kt, kv = self.E(key)
+            if kv < 0:
+                raise Unsupported('a negative key cannot be read back through a replacement field')
             if '=' in kt or ']' in kt:
                 raise Unsupported("'=' or ']' in a dictionary key expression makes name[key]=value ambiguous")
             if isstr:
@@ -710,7 +720,7 @@ class Gen:
         r = self.rng
         k = r.random()
         if depth <= 0 or k < 0.15:
-            t = self.text(0, 6, 'abcdefghijklm ABC0123456789.:;!?_-+*=')
+            t = self.text(0, 6, 'abcdefghijklm ABC0123456789.:;!?_-+*=<>&\'"<&')
             if var and r.random() < 0.7:
                 t += var + self.text(0, 2, 'xyz .')
             return ['t', t]
@@ -782,6 +792,9 @@ class Gen:
         r = self.rng
         k = r.random()
         m = self.m
+        if k < 0.04:
+            # the documentation lets #LET change the asm/base/case/fix/html fields; the true mode stays in {mode[...]}
+            return ['let', r.choice(('html', 'html', 'asm', 'fix', 'base', 'case')), ['lit', r.choice((0, 1, 2, 10, 16)), 'd']]
         if k < 0.14:
             return ['let', r.choice(('a', 'b', 'count', 'x1', 'w')), self.E(depth - 1)]
         if k < 0.2:
